@@ -14,6 +14,12 @@ Model of the expected-response machinery of `aioslsk` **after** the proposed fix
   look at the connection's state.
 * `SoulSeekClient.execute`                                 client.py:275-291 (with
   `fixes/C12-execute-cancel-during-send.patch`)
+* the life of the connections                              connection.py:105-108 (`Connection.set_state` → `Network.on_state_changed`,
+  network.py:1060-1126), `on_peer_accepted` / `_handle_connect_to_peer` / `_finalize_peer_connection` (network.py:955-1004,
+  1129-1195): `connState c true` = connection object `c` is reported CLOSING / CLOSED (and, a peer connection, dropped
+  from `peer_connections`), `connState c false` = a connection object `c` that is open: a new connection accepted /
+  connected to, registered, ESTABLISHED.  None of this code reads or writes `_expected_response_futures`: requests are
+  matched by peer *name* when a message arrives, not tied to the connection they went out on.
 
 asyncio is modelled at the granularity the code can observe: a `Future` is `pending`, has a
 result, is cancelled or has an exception; `set_result` / `set_exception` on a future that is not
@@ -176,7 +182,8 @@ inductive Op
   | awaitF (k : Nat)                  -- the caller starts awaiting the future (arms its timeout)
   | arrive (c : Nat) (μ : Msg)        -- `on_message_received(μ, c)` is entered (network.py:1204); handlers start
   | finish (h : Nat)                  -- the handlers of call `h` have returned: completion loop (network.py:1219-1225)
-  | connState (c : Nat) (closing : Bool)   -- `Connection.set_state` of connection object `c` (connection.py:102-105)
+  | connState (c : Nat) (closing : Bool)   -- `Connection.set_state` of connection object `c` (connection.py:105-108):
+                                      -- true = CLOSING / CLOSED, false = (a new object that is) CONNECTED / ESTABLISHED
   | timeout (k : Nat)                 -- the caller's timeout fires
   | cancelTask (k : Nat)              -- the caller task is cancelled
   | cancelFut (k : Nat)               -- `future.cancel()` (network.py:890)
